@@ -78,6 +78,24 @@ class C01(flow.Spec):
             if len(writers) >= 2:
                 tags.add("concurrent-writers")
             out.append(("cluster %d %d %s 6" % (nn, len(ops), " ".join(ops)), tags))
+        # the family the cluster theorem's no_tie hypothesis is about: two nodes delete the same row
+        # before they hear of each other's delete, a third node is served each delete by the node
+        # where it lost (sync mode 2: only relayed versions arrive)
+        K = 4 if tier == "quick" else 60
+        for _ in range(K):
+            row = rnd.randrange(1, 4)
+            a, b = rnd.sample([0, 1, 2], 2)
+            c = 3 - a - b
+            pre = ["T %d 1 I %d %d" % (a, row, rnd.randrange(1, 9000)), "B %d %d 0" % (a, b), "B %d %d 0" % (a, c)]
+            if rnd.random() < 0.5:
+                pre += ["T %d 1 U %d %d" % (b, row, rnd.randrange(1, 9000)), "B %d %d 0" % (b, a), "B %d %d 0" % (b, c)]
+            dels = ["T %d 1 X %d 0" % (a, row), "T %d 1 X %d 0" % (b, row), "B %d %d 0" % (a, b), "B %d %d 0" % (b, a)]
+            tail = rnd.choice([["S %d %d 2" % (c, a), "S %d %d 2" % (c, b)],
+                               ["S %d %d 2" % (c, b), "S %d %d 2" % (c, a)],
+                               ["S %d %d 0" % (c, a)],
+                               ["S %d %d 1" % (c, a), "S %d %d 1" % (c, b)]])
+            ops = pre + dels + tail
+            out.append(("cluster 3 %d %s 6" % (len(ops), " ".join(ops)), {"cluster", "nodes=3", "concurrent-writers", "concurrent-deletes"}))
         return out
 
     def model_lines(self, case, impl_obs):
@@ -167,7 +185,7 @@ class C01(flow.Spec):
         for n in nodes:
             dup |= {x for x in (n[5] or "").split(",") if x}
         if not dup:
-            return None
+            return self.classify_concurrent_deletes(case, steps, nodes)
         # second manifestation (debug builds): the duplicate is not at last_seq, the relay sends
         # both records and the receiver's process_complete_version fails its `len <= seqs`
         # assertion -- recognised by the call site of the panic, with a duplicate present
@@ -187,6 +205,42 @@ class C01(flow.Spec):
         if any(strip(n) != st0 for n in nodes) or st0[3] != "0" or st0[4] != "0":
             return None
         return "resurrect-duplicate-seq"
+
+    def classify_concurrent_deletes(self, case, steps, nodes):
+        """concurrent-deletes (the class Model/Cluster.v's no_tie excludes): the nodes differ ONLY in rows
+        that two different nodes deleted in the script, and there only like this: some nodes show the
+        row deleted at an even causal length M, the others still show it at M-1; nothing is needed,
+        nothing is partial, heads agree, nobody panicked"""
+        if " panics=" in steps[0]:
+            return None
+        deleters = {}
+        for mm in re.finditer(r" T (\d+) (\d+)((?: [IUX] \d+ \d+)+)", " " + case):
+            for st in re.finditer(r"X (\d+) \d+", mm.group(3)):
+                deleters.setdefault(st.group(1), set()).add(mm.group(1))
+        both = {row for row, ns in deleters.items() if len(ns) >= 2}
+        if not both:
+            return None
+        full = [n[:5] for n in nodes]
+        if all(f == full[0] for f in full):
+            return None
+        def strip(n):
+            tbl = [c for c in n[0].split(",") if c and c.split("=")[0] not in both]
+            clk = [c for c in n[1].split(",") if c and c.split("/")[0] not in both]
+            return (tbl, clk, n[2], n[3], n[4])
+        st0 = strip(nodes[0])
+        if any(strip(n) != st0 for n in nodes) or st0[3] != "0" or st0[4] != "0":
+            return None
+        for row in both:
+            cls = set()
+            for n in nodes:
+                cl = [int(c.split(":")[3]) for c in n[1].split(",") if c and c.split("/")[0] == row]
+                cls.add(max(cl) if cl else 0)
+            if len(cls) == 1:
+                continue
+            hi = max(cls)
+            if hi % 2 != 0 or cls != {hi, hi - 1}:
+                return None
+        return "concurrent-deletes"
 
     def impl_verdict(self, case, impl_obs):
         if impl_obs.startswith(("ERR", "PANIC", "CRASH")):
